@@ -17,6 +17,8 @@ pub trait Queryable: Sized {
     spec fn from_i64_spec(v: i64) -> Self;
     spec fn from_f64_spec(v: f64) -> Self;
     spec fn from_str_spec(s: Seq<char>) -> Self;
+    // nesting depth of the value (ghost; only makes spec recursion over documents well-founded)
+    spec fn height_spec(&self) -> nat;
 
     //@sig
     fn get(&self, key: &str) -> (r: Option<&Self>)
@@ -49,4 +51,8 @@ pub trait Queryable: Sized {
         ensures Self::from_bool_spec(b).as_bool_spec() == Some(b);
     proof fn array_len_bound(&self)
         ensures self.as_array_spec() matches Some(a) ==> a@.len() < 0x4000_0000_0000_0000;
+    proof fn children_are_smaller(&self)
+        ensures
+            self.as_array_spec() matches Some(a) ==> forall|i: int| 0 <= i < a@.len() ==> (#[trigger] a@[i]).height_spec() < self.height_spec(),
+            self.as_object_spec() matches Some(o) ==> forall|i: int| 0 <= i < o.len() ==> (#[trigger] o[i]).1.height_spec() < self.height_spec();
 }
